@@ -282,6 +282,29 @@ fn execute_inner(sc: &AisleScenario) -> (Vec<Violation>, AisleStats) {
                     out.push(v("parse-invariant", format!("error {e:?} has span {s:?} outside input of {} bytes / off a char boundary: {text:?}", text.len())));
                 }
             }
+            // the spans the error hands to renderers (RichError::labels) are spans of the error too
+            {
+                use cooklang::error::RichError;
+                let labels = catch_unwind(AssertUnwindSafe(|| e.labels().iter().map(|l| l.0).collect::<Vec<cooklang::Span>>()));
+                match labels {
+                    Ok(ls) => {
+                        for s in ls {
+                            if !span_ok(text, s) {
+                                out.push(v("parse-invariant", format!("error {e:?}: label span {s:?} (RichError::labels) lies outside the input of {} bytes / off a char boundary: {text:?}", text.len())));
+                            }
+                        }
+                    }
+                    Err(_) => {
+                        let _ = crate::sim::take_last_panic();
+                        out.push(v("parse-invariant", format!("RichError::labels() of {e:?} panicked for {text:?}")));
+                    }
+                }
+                let mut buf = Vec::new();
+                if catch_unwind(AssertUnwindSafe(|| cooklang::error::write_rich_error(&e, "aisle.conf", text, false, &mut buf))).is_err() {
+                    let _ = crate::sim::take_last_panic();
+                    out.push(v("parse-invariant", format!("rendering the error {e:?} of {text:?} panicked (a span that does not select text of the input)")));
+                }
+            }
             return (out, st);
         }
         Ok(c) => c,
